@@ -395,7 +395,7 @@ BOUNDS = {
     'quick': 'core_stab on cores with 2-4 entries (all sign patterns, both sides of the threshold); mul_scalar / norm on d=2 with '
              '<= 4 entries per tensor pair (the d=2 run is the inductive step from an arbitrary normalised state, exponents are '
              'unbounded symbolic integers); accuracy on 1x1 rank-1 pairs incl. all saturation branches; stabilised orthogonalize on '
-             'super-diagonal d=3 n=2 (all pivots) and generic 2x2; rescaling by 2^k, k in {1,-3}',
+             'super-diagonal d=3 n=2 (all pivots) and generic 2x2; rescaling by 2^k, k in {1,-3}; concrete (real code): accuracy(Y+sE, Y) and reverse for s=0.7^k, k=-14..23',
     'thorough': 'adds larger cores, d=3 scalar products, accuracy on (2,1), super-diagonal d=4, k in {1,-1,5,-7}',
 }
 OUTSIDE = ('actual float64 overflow/underflow (exact reals); dimensions beyond the inductive step are covered only through the '
